@@ -82,8 +82,11 @@ def judge(ck, sc, res, v=None):
                 desc, at, bad.get("conn"), "".join(bad.get("cat", [])), bad.get("pos")), dict(rp, line=bad))
         return len(events)
     # the file channel: the ids TLC says it holds, as projections, against the lines of its log
-    m = re.search(r'<<"FILE", (<<.*?>>|<< >>)>>', tr.out)
-    ids = [int(x) for x in re.findall(r'\d+', m.group(1))] if m else []
+    # (TLC wraps a long tuple over several lines: the pattern must not depend on the layout)
+    m = re.search(r'<<\s*"FILE",\s*(<<.*?>>)\s*>>', tr.out, re.S)
+    if not m:
+        raise lib.Infra("Honeytrap_Trace printed no FILE line:\n" + tr.out[-800:])
+    ids = [int(x) for x in re.findall(r'\d+', m.group(1))]
     want = [events[i - 1]["proj"] for i in ids]
     got = res.get("file") or []
     if got != want:
